@@ -242,6 +242,9 @@ class Application(object):
         """
         if index is None:
             index = len(self.routes)
+        elif index < 0:
+            # resolve once, like list.insert, so multiple routes stay contiguous
+            index = max(len(self.routes) + index, 0)
         rf = cast_to_route_factory(entry)
 
         kwargs.setdefault('rebind_render', getattr(rf, 'rebind_render', True))
